@@ -10,14 +10,19 @@ import numpy as np
 import common as C
 
 PID = "C02"
-DRIVER = [("C02", "TfPwaV.Model.Align", "Align.handle"), ("C02a", "TfPwaV.Gen.AlignF", "AlignF.handle")]
-LEAN_TARGETS = ["TfPwaV.Props.C02", "TfPwaV.Props.C02b", "TfPwaV.Props.C02c", "TfPwaV.Gen.AlignF", "TfPwaV.Gen.SU2F"]
-PROP_MODULES = ["TfPwaV.Props.C02", "TfPwaV.Props.C02b", "TfPwaV.Props.C02c"]
+DRIVER = [("C02", "TfPwaV.Model.Align", "Align.handle"), ("C02a", "TfPwaV.Gen.AlignF", "AlignF.handle"),
+          ("C02w", "TfPwaV.Gen.SL2CF", "SL2CF.handle")]
+LEAN_TARGETS = ["TfPwaV.Props.C02", "TfPwaV.Props.C02b", "TfPwaV.Props.C02c", "TfPwaV.Props.C02d", "TfPwaV.Gen.AlignF", "TfPwaV.Gen.SU2F",
+                "TfPwaV.Gen.SL2CF"]
+PROP_MODULES = ["TfPwaV.Props.C02", "TfPwaV.Props.C02b", "TfPwaV.Props.C02c", "TfPwaV.Props.C02d"]
 ALL_MODULES = ["TfPwaV.Model.Align", "TfPwaV.Proofs.Align", "TfPwaV.Proofs.AlignD", "TfPwaV.Proofs.SU2", "TfPwaV.Proofs.UnitaryMix",
-               "TfPwaV.Props.C02", "TfPwaV.Props.C02b", "TfPwaV.Props.C02c", "TfPwaV.Props.C12b", "TfPwaV.Props.C12d",
+               "TfPwaV.Props.C02", "TfPwaV.Props.C02b", "TfPwaV.Props.C02c", "TfPwaV.Props.C02d", "TfPwaV.Proofs.SL2C", "TfPwaV.Proofs.Kin",
+               "TfPwaV.Props.C12b", "TfPwaV.Props.C12d",
                "TfPwaV.Props.C01", "TfPwaV.Props.C01b", "TfPwaV.Proofs.FrameAlg", "TfPwaV.Proofs.DHom", "TfPwaV.Proofs.ZHom"]
 ASSUMPTIONS = [
-    "kinematic hypothesis, validated not proved: the alignment elements built from the boosts and rotations of two decay chains of the same event are pure rotations (the boosts cancel to a Wigner rotation): G = (b_ref' r_ref')(b_ref r_ref)^-1 in SU(2) and R_k in SU(2) for every chain k (each R_k is itself such a change-of-reference element, changeRef_eq_align). This `IsSU2` is the ONLY hypothesis of convention_invariant / convention_invariant_two / order_and_reference_invariant (Props/C02c.lean, every final-state spin 2j <= 8); the search measures the consequence (equal densities) on the implementation",
+    "kinematic hypothesis, REDUCED (Props/C02d.lean): `IsSU2 G` / `IsSU2 R_k` of convention_invariant (Props/C02c.lean) are no longer assumed. They are PROVED (changeRef_isSU2, alignR_isSU2, via rest_stabiliser / two_routes_rotation and the spinor map herm p = [[E+pz, -px-i py], [-px+i py, E-pz]], X -> A X A^dagger) from the named hypothesis `RouteToRest`: for every chain, the Lorentz transformation composed from the (alpha_i, beta_i, omega_i) that cal_helicity_angle fed to Boost_z*Rotation_y*Rotation_z along the decay path brings the final particle's momentum (coordinates in the top particle's frame shared by all chains) to rest, and the mass is non-zero. `RouteToRest` itself follows (routeToRest_of_lastVertex, helicity_vertex_to_rest, polar_of_momentum, omega_of_momentum) from `LastVertexTracks`: the angles and rapidity of the last vertex are those of the momentum the earlier vertices produce. NOT proved: that the helicity-frame momentum the code obtains by nested LorentzVector.rest_vector boosts and axis bookkeeping (cal_chain_boost, angle_zx_z_getx; C11d cascade_boost_undo / cascade_angles) equals the image of the top-frame momentum under the earlier vertices of the route. Validated on every run: (b_matrix*r_matrix) herm(q) (..)^dagger = m*1 for every chain, final particle and event with the matrices captured from the real cal_angle and q from a numpy oracle, to 1e-9*E*max|M_ij|^2 (observed 2e-15), and unitarity of every element handed to get_euler_angle (observed 1.4e-15)",
+    "massless final particles (m = 0) are excluded from rest_stabiliser (rest_stabiliser_massless_fails shows the hypothesis cannot be dropped); the regular branch tanh^2(omega) > 1e-14 of LorentzVector.boost is a hypothesis of boost_sign_tie; omega_of_momentum assumes a time-like momentum of positive energy (LorentzVector.gamma resets beta^2 >= 1 to 0 otherwise)",
+    "the spinor parametrisation herm is a choice: the mirror image (E - p.sigma, i.e. A -> (A^dagger)^-1) would describe a tree in which the sign of the rapidity is flipped in EVERY Boost_z consistently; such a tree still satisfies the property but fails the kinematic correspondence (and the C12 correspondence of Boost_z) and is reported as a broken obligation, not as a failing input",
     "the matrix contracted by DecayChain.get_amp is modelled as codeD N R = D_matrix_conj(get_euler_angle(R)) built from the exact small-d table model (C12: compared with small_d_weight on every run) and applied to the chain-frame helicity index (alignD_einsum); its anti-multiplicativity on SU(2) and unitarity are PROVED for 2j <= 8 (codeD_mul from euler_roundtrip + DConj_compose/D_hom_su2, codeD_unitary from D_conj_unitary) and re-checked numerically on the implementation for 2j <= 4 (correspond_dhom); the bound 2j <= 8 comes from the kernel-checked table tie of C12",
     "random_z / center_mass equivalences (a common rotation / the first pure boost of the whole event) are validated by the search only; they are instances of C01 frame covariance",
     "density comparison tolerance 1e-6*(max(d1,d2)+mean(d)): SU2M.get_euler_angle takes beta = acos(Re(x00 x11 + x01 x10)), whose forward error at beta -> 0 is sqrt(2 ulp) ~ 2e-8 (observed density differences up to 1.3e-8 between equivalent configurations on the unchanged tree, median 1e-10); any O(1) convention error is > 1e-3 on most events",
@@ -937,6 +942,241 @@ def correspond_dhom(ctx, res):
     return int(np.sum(ok)) * 4 + n
 
 
+
+# ---------------------------------------------------------------------------------------------
+# the kinematic hypothesis of Props/C02d.lean on the implementation
+# ---------------------------------------------------------------------------------------------
+
+def _capture_cal_angle(dg, pdict, align_ref):
+    """run the real cal_angle_from_particle with the real cal_helicity_angle / get_euler_angle / rule 2 wrapped, so that
+    the r_matrix / b_matrix of every chain and every element handed to get_euler_angle are kept"""
+    import tensorflow as tf
+    from tf_pwa import cal_angle as ca
+    from tf_pwa.angle import SU2M
+    cap = {"hel": [], "R": [], "rule2": []}
+    o_hel, o_euler, o_r2 = ca.cal_helicity_angle, SU2M.get_euler_angle, ca.aligned_angle_ref_rule2
+
+    def w_hel(data, chain, **kw):
+        r = o_hel(data, chain, **kw)
+        cap["hel"].append((chain, r))
+        return r
+
+    def w_euler(self):
+        e = o_euler(self)
+        cap["R"].append(self)
+        return e
+
+    def w_r2(*a, **kw):
+        r = o_r2(*a, **kw)
+        cap["rule2"].append(r)
+        return r
+    p = {dgp: tf.constant(np.asarray(pdict[str(dgp)], dtype=float)) for dgp in dg.outs}
+    data_p = ca.struct_momentum(p, center_mass=False)
+    for dec in dg.topology_structure():
+        data_p = ca.infer_momentum(data_p, dec)
+        data_p = ca.add_mass(data_p, dec)
+    ca.cal_helicity_angle, SU2M.get_euler_angle, ca.aligned_angle_ref_rule2 = w_hel, w_euler, w_r2
+    try:
+        ret = ca.cal_angle_from_particle(data_p, dg, True, random_z=True, r_boost=True, align_ref=align_ref)
+    finally:
+        ca.cal_helicity_angle, SU2M.get_euler_angle, ca.aligned_angle_ref_rule2 = o_hel, o_euler, o_r2
+    return ret, cap
+
+
+def top_frame_coords(p_top, p):
+    """harness-side oracle (numpy): coordinates of the four-momenta p (N,4) in the frame all chains start from — the rest
+    frame of the top particle reached by ONE pure boost, axes z = direction of flight of the top particle (random_z; the
+    lab z axis when it is at rest, |p| < 1e-5), y = z × x_lab, x = y × z"""
+    out = np.zeros_like(p)
+    for ev in range(len(p)):
+        q = boost_np(p[ev:ev + 1], -p_top[ev, 1:] / p_top[ev, 0])[0]
+        p3 = p_top[ev, 1:]
+        bz = p3 if np.linalg.norm(p3) >= 1e-5 else np.array([0.0, 0.0, 1.0])
+        uy = np.cross(bz, np.array([1.0, 0.0, 0.0]))
+        uy /= np.linalg.norm(uy)
+        ux = np.cross(uy, bz)
+        ux /= np.linalg.norm(ux)
+        uz = bz / np.linalg.norm(bz)
+        out[ev] = [q[0], q[1:] @ ux, q[1:] @ uy, q[1:] @ uz]
+    return out
+
+
+def _c22(v8):
+    return np.array([[complex(v8[0], v8[1]), complex(v8[2], v8[3])], [complex(v8[4], v8[5]), complex(v8[6], v8[7])]])
+
+
+def _herm_np(q):
+    return np.array([[q[0] + q[3], complex(-q[1], -q[2])], [complex(-q[1], q[2]), q[0] - q[3]]])
+
+
+KIN_TOL = 1e-9
+
+
+def correspond_kinematic(ctx, res):
+    """The hypothesis `RouteToRest` of Props/C02d.lean (and its consequence `IsSU2 G`) on real events and the matrices the
+    real cal_angle builds, through the Float instance of templates/SL2C.lean.in:
+      (a) for every chain and every final particle f: (b_matrix[f]·r_matrix[f]) · herm(q_f) · (…)† = m_f·1, q_f = momentum
+          of f in the frame of the top particle (numpy oracle, independent of cal_angle);
+      (b) the same through the angles: routeL(steps)(q_f) = (m_f, 0, 0, 0) for the (alpha, beta) cal_helicity_angle stored and
+          omega read off b_matrix; routeM(steps) and the code-shaped accumulation equal the captured b·r;
+      (c) every element handed to get_euler_angle is unitary (SU(2) residuals);
+      (d) omegaP (model of LorentzVector.omega) vs the real function.
+    Tolerance KIN_TOL·scale, scale = E·max|M_ij|² (the entries of a route matrix grow like exp(Σω/2))."""
+    import tensorflow as tf
+    from tf_pwa.angle import LorentzVector
+    rng = np.random.Generator(np.random.Philox(ctx.seed + 2025))
+    nev = 3 if ctx.quick else 10
+    structs = list(zoo())
+    if not ctx.quick or ctx.suspect:
+        tries = 0
+        while len(structs) < 6 and tries < 40:
+            tries += 1
+            cfg = random_structure(rng)
+            if cfg is None:
+                continue
+            try:
+                _, amp = build(cfg)
+            except Exception:
+                continue
+            if len(amp.decay_group.topology_structure()) >= 2:
+                structs.append(("random-k%d" % tries, cfg))
+    lines, checks = [], []
+    stat = {"routes": 0, "deep": 0, "rule2": 0, "G": 0, "G_nontrivial": 0, "worst_route": 0.0, "worst_G": 0.0, "omega": 0}
+    for name, cfg in structs:
+        events = make_events(cfg, rng, nev)
+        try:
+            c, amp = build(cfg)
+        except Exception as e:
+            res.broke("kinematic: structure %s cannot be built" % name, str(e)[:300])
+            continue
+        dg = amp.decay_group
+        for align_ref, frame in ((None, "rest"), (None, "lab"), ("center_mass", "rest"), ("center_mass", "lab")):
+            pd = events[frame]
+            try:
+                ret, cap = _capture_cal_angle(dg, pd, align_ref)
+            except Exception as e:
+                res.broke("kinematic: cal_angle raises on %s (%s, %s)" % (name, align_ref, frame), "%s: %s" % (type(e).__name__, str(e)[:300]))
+                continue
+            p_top = sum(np.asarray(pd[str(o)], dtype=float) for o in dg.outs)
+            qs = {o: top_frame_coords(p_top, np.asarray(pd[str(o)], dtype=float)) for o in dg.outs}
+            ms = {o: np.sqrt(np.maximum(qs[o][:, 0] ** 2 - np.sum(qs[o][:, 1:] ** 2, -1), 0.0)) for o in dg.outs}
+            where = "%s align_ref=%s frame=%s" % (name, align_ref, frame)
+            big = np.ones(nev)
+            for ci, (ch, r) in enumerate(cap["hel"]):
+                prod = {}
+                for d in ch:
+                    for o in d.outs:
+                        prod[o] = d
+                for o in dg.outs:
+                    if o not in r["r_matrix"]:
+                        continue
+                    path, x = [], o
+                    while x in prod:
+                        path.append((prod[x], x))
+                        x = prod[x].core
+                    path = path[::-1]
+                    for ev in range(nev):
+                        b8, r8 = _m8(r["b_matrix"][o], ev), _m8(r["r_matrix"][o], ev)
+                        q = [float(v) for v in qs[o][ev]]
+                        m = float(ms[o][ev])
+                        M = _c22(b8) @ _c22(r8)
+                        sc = max(1.0, float(np.max(np.abs(M))) ** 2) * q[0]
+                        big[ev] = max(big[ev], float(np.max(np.abs(M))))
+                        lines.append("C02w actbr " + " ".join(C.f2h(v) for v in b8 + r8 + q))
+                        checks.append(("act", (M, q, m, sc), "%s: chain %s particle %s event %d" % (where, ch, o, ev),
+                                       {"cfg": cfg, "align_ref": align_ref, "p": jsonable_p({k: np.asarray(v)[ev:ev + 1] for k, v in pd.items()})}))
+                        steps = []
+                        for d, y in path:
+                            steps += [float(np.asarray(r[d][y]["ang"][k]).reshape(-1)[ev]) for k in ("alpha", "beta")]
+                            steps.append(2.0 * math.log(_m8(r["b_matrix"][y], ev)[6]))
+                        lines.append("C02w route " + " ".join(C.f2h(v) for v in q + steps))
+                        checks.append(("route", (M, q, m, sc), "%s: chain %s particle %s event %d, %d vertices" % (where, ch, o, ev, len(path)), None))
+                        stat["routes"] += 1
+                        stat["deep"] += len(path) >= 2
+            # the rule-2 reference (1, r^-1 Boost_z r) must bring the momentum to rest as well (rule2_to_rest)
+            for r2 in cap["rule2"][:1]:
+                for o in dg.outs:
+                    for ev in range(nev):
+                        b8, r8 = _m8(r2[1][o]["b_matrix"], ev), _m8(r2[1][o]["r_matrix"], ev)
+                        q = [float(v) for v in qs[o][ev]]
+                        M = _c22(b8) @ _c22(r8)
+                        sc = max(1.0, float(np.max(np.abs(M))) ** 2) * q[0]
+                        big[ev] = max(big[ev], float(np.max(np.abs(M))))
+                        lines.append("C02w actbr " + " ".join(C.f2h(v) for v in b8 + r8 + q))
+                        checks.append(("act", (M, q, float(ms[o][ev]), sc), "%s: rule-2 reference of particle %s event %d" % (where, o, ev),
+                                       {"cfg": cfg, "align_ref": align_ref, "p": jsonable_p({k: np.asarray(v)[ev:ev + 1] for k, v in pd.items()})}))
+                        stat["rule2"] += 1
+            for Rm in cap["R"]:
+                for ev in range(nev):
+                    g8 = _m8(Rm, ev)
+                    lines.append("C02w su2 " + " ".join(C.f2h(v) for v in g8))
+                    checks.append(("su2", (g8, big[ev] ** 2), "%s: element handed to get_euler_angle, event %d" % (where, ev), None))
+                    stat["G"] += 1
+                    stat["G_nontrivial"] += math.hypot(g8[4], g8[5]) > 1e-3
+            # (d) LorentzVector.omega
+            for o in dg.outs:
+                om = np.asarray(LorentzVector.omega(tf.constant(qs[o])))
+                for ev in range(nev):
+                    lines.append("C02w omega " + " ".join(C.f2h(float(v)) for v in qs[o][ev]))
+                    checks.append(("omega", float(om[ev]), "%s: omega of %s event %d" % (where, o, ev), None))
+                    stat["omega"] += 1
+    out = ctx.model.query(lines)
+    nb = {"act": 0, "route": 0, "su2": 0, "omega": 0, "model": 0}
+
+    def report(kind, what, detail):
+        nb[kind] += 1
+        if nb[kind] <= 2:
+            res.broke(what, detail)
+    for l, (kind, want, what, extra), o in zip(lines, checks, out):
+        if o == "bad-op":
+            res.broke("model driver bad-op (SL2C)", l[:200])
+            return 0
+        mv = np.array([C.h2f(x) for x in o.split()])
+        if kind == "act":
+            M, q, m, sc = want
+            X = M @ _herm_np(q) @ M.conj().T
+            mine = np.array([X[0, 0].real, X[0, 0].imag, X[0, 1].real, X[0, 1].imag, X[1, 0].real, X[1, 0].imag, X[1, 1].real, X[1, 1].imag])
+            if not np.max(np.abs(mv - mine)) <= 1e-11 * sc:
+                report("model", "correspondence SL2C Float model: act(b*r)(herm q) vs numpy", {"case": what, "model": list(mv), "numpy": list(mine)})
+            err = float(np.max(np.abs(mv - np.array([m, 0, 0, 0, 0, 0, m, 0]))) / sc)
+            stat["worst_route"] = max(stat["worst_route"], err)
+            if not err <= KIN_TOL:
+                report("act", "kinematic hypothesis RouteToRest fails on the implementation: (b_matrix*r_matrix) herm(q) (...)^dagger != m*1",
+                       dict(extra, case=what, got=list(mv), mass=m, q_top_frame=q, rel_err=err))
+        elif kind == "route":
+            M, q, m, sc = want
+            err = float(np.max(np.abs(mv[:4] - np.array([m, 0, 0, 0]))) / sc)
+            stat["worst_route"] = max(stat["worst_route"], err)
+            if not err <= KIN_TOL:
+                report("route", "kinematic hypothesis RouteToRest fails on the implementation: routeL(alpha_i, beta_i, omega_i)(q) != (m,0,0,0)",
+                       {"case": what, "got": list(mv[:4]), "mass": m, "q_top_frame": q, "rel_err": err})
+            M8 = np.array([M[0, 0].real, M[0, 0].imag, M[0, 1].real, M[0, 1].imag, M[1, 0].real, M[1, 0].imag, M[1, 1].real, M[1, 1].imag])
+            e2 = float(max(np.max(np.abs(mv[4:12] - M8)), np.max(np.abs(mv[12:20] - M8))) / max(1.0, np.max(np.abs(M8))))
+            if not e2 <= KIN_TOL:
+                report("model", "correspondence route matrix: product of Boost_z*Rotation_y*Rotation_z per vertex vs captured b_matrix*r_matrix",
+                       {"case": what, "routeM": list(mv[4:12]), "code-shaped": list(mv[12:20]), "impl": list(M8), "err": e2})
+        elif kind == "su2":
+            g8, sc = want
+            err = float(np.max(np.abs(mv)) / sc)
+            stat["worst_G"] = max(stat["worst_G"], err)
+            if not err <= KIN_TOL:
+                report("su2", "alignment element handed to get_euler_angle is not unitary (IsSU2 fails on the implementation)",
+                       {"case": what, "G": list(g8), "residuals": list(mv), "rel_err": err})
+        else:
+            if not abs(mv[0] - want) <= 1e-7 * max(1.0, abs(want)):
+                report("omega", "correspondence omegaP vs LorentzVector.omega", {"case": what, "impl": want, "model": float(mv[0])})
+    res.coverage["kinematic_routes_checked"] = stat["routes"]
+    res.coverage["kinematic_routes_depth_ge_2"] = int(stat["deep"])
+    res.coverage["kinematic_rule2_references_checked"] = stat["rule2"]
+    res.coverage["kinematic_worst_route_residual_rel"] = stat["worst_route"]
+    res.coverage["kinematic_alignment_elements_checked"] = stat["G"]
+    res.coverage["kinematic_alignment_elements_nontrivial"] = int(stat["G_nontrivial"])
+    res.coverage["kinematic_worst_unitarity_residual_rel"] = stat["worst_G"]
+    res.coverage["kinematic_structures"] = [n for n, _ in structs]
+    res.coverage["kinematic_tolerance"] = KIN_TOL
+    return stat["routes"] * 2 + stat["G"] + stat["omega"]
+
+
 def correspond(ctx, res):
     import time
     t0 = time.time()
@@ -946,7 +1186,9 @@ def correspond(ctx, res):
     t2 = time.time()
     n += correspond_left(ctx, res)
     n += correspond_dhom(ctx, res)
-    C.log("[C02] correspondence: rule1 %.1fs, matrices %.1fs, left+dhom %.1fs" % (t1 - t0, t2 - t1, time.time() - t2))
+    t3 = time.time()
+    n += correspond_kinematic(ctx, res)
+    C.log("[C02] correspondence: rule1 %.1fs, matrices %.1fs, left+dhom %.1fs, kinematic %.1fs" % (t1 - t0, t2 - t1, t3 - t2, time.time() - t3))
     res.coverage["traces_validated_against_impl"] = n
 
 
@@ -981,7 +1223,7 @@ def replay(ctx, payload):
 
 
 MANIFEST = {
-    "text": "Lean theorems: (i) SU2M algebra over real pairs (imported from C12b: associativity, det multiplicative, inv two-sided for det 1, det of Rz/Ry/Bz = 1) extended to the bookkeeping of cal_angle: every r_matrix / b_matrix / rule-2 reference built by cal_helicity_angle has det 1 for every decay path of any depth; (ii) align_cocycle: for any two references the alignment elements satisfy R'_k = G R_k with one G for all chains k (and G = the alignment element of the old reference chain w.r.t. the new one); (iii) ref_choice_total: the modelled aligned_angle_ref_rule1 assigns to every final particle exactly one reference chain = first chain producing it from the top particle, else chain 0, for EVERY ordered chain list; reference chains never get an aligned angle, all others do; (iv) permutation invariance of the coherent sum for lists and convention_invariant (Props/C02c.lean): for every final-state spin 2j <= 8, with the code's own alignment matrix D_matrix_conj(get_euler_angle(R_k)) (anti-multiplicativity on SU(2) and unitarity proved from euler_roundtrip, D_hom_su2, D_conj_unitary), arbitrary spectator indices, one or two aligned particles with independent references, the helicity-summed density is the same for both references; the only hypothesis is kinematic (the alignment elements are in SU(2)).",
-    "note": "Validated, not proved: the alignment elements are pure rotations (boosts cancel to a Wigner rotation); random_z / center_mass equivalences. The discrete model is compared exactly with the real aligned_angle_ref_rule1 on seeded chain lists (real DecayChain objects, token payloads) and with the keys of the real cal_angle output; the Float instance of the matrix bookkeeping is compared with the matrices the real cal_angle builds on real events (captured at get_euler_angle). Search = the property itself: pairs of ConfigLoader instances from permuted chain lists / inner alternatives / decay-section key order and re-optioned data sections (align_ref, random_z, center_mass, only_left_angle), parameters by name, same p4 in the parent rest frame and in a boosted frame, rel 1e-6 (the implementation's own acos forward error is 2e-8).",
-    "technique": "Lean 4 proof (2x2 complex matrix algebra over real pairs, list induction, unitary mixing) + differential correspondence + metamorphic search on the implementation",
+    "text": "Lean theorems: (i) SU2M algebra over real pairs (imported from C12b: associativity, det multiplicative, inv two-sided for det 1, det of Rz/Ry/Bz = 1) extended to the bookkeeping of cal_angle: every r_matrix / b_matrix / rule-2 reference built by cal_helicity_angle has det 1 for every decay path of any depth; (ii) align_cocycle: for any two references the alignment elements satisfy R'_k = G R_k with one G for all chains k (and G = the alignment element of the old reference chain w.r.t. the new one); (iii) ref_choice_total: the modelled aligned_angle_ref_rule1 assigns to every final particle exactly one reference chain = first chain producing it from the top particle, else chain 0, for EVERY ordered chain list; reference chains never get an aligned angle, all others do; (iv) permutation invariance of the coherent sum for lists and convention_invariant (Props/C02c.lean): for every final-state spin 2j <= 8, with the code's own alignment matrix D_matrix_conj(get_euler_angle(R_k)) (anti-multiplicativity on SU(2) and unitarity proved from euler_roundtrip, D_hom_su2, D_conj_unitary), arbitrary spectator indices, one or two aligned particles with independent references, the helicity-summed density is the same for both references, given that the alignment elements are in SU(2); (v) NEW, Props/C02d.lean (spinor map, all real angles / rapidities / four-vectors): boostZ_acts, rotZ_acts, rotY_acts (what SU2M.Boost_z / Rotation_z / Rotation_y do to a four-vector: boost with velocity -tanh(omega) along z, azimuth - alpha, polar angle - beta), boost_sign_tie (Boost_z(omega) = LorentzVector.rest_vector of a momentum along +z, regular branch), omega_of_momentum (acosh(LorentzVector.gamma(p)) has m cosh = E, m sinh = |p|), helicity_vertex_to_rest, rest_stabiliser (det A = 1, A (m 1) A^dagger = m 1, m != 0 => A in SU(2); massless counterexample), two_routes_rotation, route_matches_code (b_matrix*r_matrix accumulated as r*b[core]*r[core] is the ordered product of the per-vertex matrices, any depth), route_acts (it acts as the composed per-vertex Lorentz transformation), changeRef_isSU2 / alignR_isSU2 (G and every R_k ARE rotations) and convention_invariant_routes / _two_routes / order_and_reference_invariant_routes / convention_invariant_rule2_routes: the density is the same for two reference chains, and for rule 1 vs rule 2 (align_ref = center_mass), WITHOUT any IsSU2 hypothesis, under the named kinematic hypothesis RouteToRest (each chain's route was built from the momentum it is applied to; implied by LastVertexTracks) and m != 0.",
+    "note": "Validated, not proved: RouteToRest itself, i.e. that the helicity-frame momenta cal_chain_boost / cal_helicity_angle compute by nested rest_vector boosts and axis bookkeeping are the images of the top-frame momentum under the route (checked on every run on the matrices captured from the real cal_angle: (b*r) herm(q) (b*r)^dagger = m*1 per chain / final particle / event with q from an independent numpy oracle, routeL(alpha_i, beta_i, omega_i)(q) = (m,0,0,0), per-vertex product = captured b*r, unitarity of every element handed to get_euler_angle; 1e-9 relative to E*max|M_ij|^2, observed 2e-15); random_z / center_mass equivalences (C01 covariance); 3-body vertices (angle_zx_zzz_getx) are outside the route model. The discrete model is compared exactly with the real aligned_angle_ref_rule1 on seeded chain lists (real DecayChain objects, token payloads) and with the keys of the real cal_angle output; the Float instance of the matrix bookkeeping is compared with the matrices the real cal_angle builds on real events (captured at get_euler_angle). Search = the property itself: pairs of ConfigLoader instances from permuted chain lists / inner alternatives / decay-section key order and re-optioned data sections (align_ref, random_z, center_mass, only_left_angle), parameters by name, same p4 in the parent rest frame and in a boosted frame, rel 1e-6 (the implementation's own acos forward error is 2e-8).",
+    "technique": "Lean 4 proof (2x2 complex matrix algebra over real pairs, spinor map SL(2,C) -> Lorentz group, list induction, unitary mixing) + differential correspondence (incl. the kinematic hypothesis on captured matrices) + metamorphic search on the implementation",
 }
